@@ -379,6 +379,9 @@ def _identifiers(repo, rep):
     _set_iteration(repo, rep)
     comp = repo.cls(COMP + "Compiler")
     n_funcs = 0
+    # which attributes hold sets / lists of sets is read off the source
+    set_attrs = L._set_attrs(repo)
+    los = L.lists_of_sets(repo).get(comp.qualname, set())
     for name, m in sorted(comp.methods.items()):
         if not name.startswith("visit_"):
             continue
@@ -391,8 +394,10 @@ def _identifiers(repo, rep):
                 it = A.show(w.iter, limit=6)
                 if it.startswith("sorted("):
                     continue        # a fixed order
-                if "_slots" in it or "_translations" in it or \
-                        it.startswith("set("):
+                if it.startswith("set(") or it.startswith("frozenset(") \
+                        or any(it == "self." + a_ for a_ in set_attrs) or \
+                        any(it.startswith("getitem(self.%s," % a_)
+                            for a_ in los):
                     ok = it in SET_ITER_OK
                     rep.check(ok, "R14.3", m.qualname,
                               "iteration over the set %s emits commuting "
